@@ -9,10 +9,78 @@ HERE = os.path.dirname(os.path.abspath(__file__))
 
 # property -> (technique, level text, level note, design ref)
 CHECKS = {
+    "C01": ("differential testing of generated DAG programs against an independent graph evaluator (rapid)",
+            "Generated well-formed graphs (fan-out/in, repeated operator types with different attributes, skipped optional inputs, permuted/omitted output names, initializer-as-input, random topological order) are loaded from marshalled bytes and Run is compared exactly, output by output, with an evaluator that shares only the operator kernels. Exploration of the program space, no proof.",
+            "The evaluator uses gonnx's own operator kernels (kernel correctness is C03-C11); model.go, binding and environment handling are independent.",
+            "DESIGN.md 3 C01"),
+    "C02": ("model-based stateful testing (rapid state machine) with a fresh-model differential and deep snapshots",
+            "Call histories (fresh inputs, re-used tensor objects, outputs fed back, batch changes, failing calls) on generated alias-route models and the sample models; after every step outputs must be bit-identical to a freshly loaded model and caller tensors, weights and earlier outputs must be bit-identical to their snapshots.",
+            "Needs the verif hook VerifParameters to observe weights; 'fresh model' is loaded from the same bytes by the same loader.",
+            "DESIGN.md 3 C02"),
+    "C03": ("property-based testing against a scalar reference model with constructed broadcast pairs (rapid)",
+            "All 12 operators x dtypes from each operator's own gate x constructed compatible/incompatible shape pairs of rank 0..4 x special values, compared exactly with Go scalar semantics; a fraction re-run as single-node models loaded from bytes.",
+            "Reference = Go's IEEE-754 / wrapping integer arithmetic and the 20-line broadcast index rule.",
+            "DESIGN.md 3 C03"),
+    "C04": ("property-based testing against a float64 reference with the gamma_K forward error bound (rapid)",
+            "MatMul over ranks 1..5 with broadcast batches, Gemm over all transpose/alpha/beta/C forms, LinearRegressor, Scaler; shapes exact, values within (K+8)uS of a float64 reference, invalid requests must error, float32 must be computed.",
+            "The bound is valid for any summation order; reference loops are the harness's own.",
+            "DESIGN.md 3 C04"),
+    "C05": ("property-based testing against a direct-convolution reference over constructed geometries (rapid)",
+            "1-D/2-D convolutions with independent per-axis extents, kernels, strides, dilations, asymmetric pads or auto_pad, bias, float32/float64; output shape exact and values within the gamma_K bound of a seven-loop float64 reference, or refused.",
+            "Reference = ONNX output-shape and auto_pad formulas as written in the operator documentation.",
+            "DESIGN.md 3 C05"),
+    "C06": ("property-based testing against a float64 reference of the ONNX recurrences plus a metamorphic split relation (rapid)",
+            "RNN/GRU/LSTM over all size combinations, every subset of optional inputs, attributes honoured-or-refused, float64 reference within 1e-4, and split-sequence equals whole-sequence to 1e-6.",
+            "Reference equations transcribed from the ONNX operator documentation; validated against gonnx to 1.6e-7 on 20 000 cases during design.",
+            "DESIGN.md 3 C06"),
+    "C07": ("property-based testing against shape/element-order rules (rapid)",
+            "Reshape/Flatten/Squeeze/Unsqueeze/Shape over ranks 0..5, all 14 element types, valid and invalid requests; valid requests must return the same flat element sequence with the ONNX shape, invalid ones an error value.",
+            "Reference = ONNX shape rules; contents 0,1,2,... make element order observable.",
+            "DESIGN.md 3 C07"),
+    "C08": ("property-based testing against ONNX index formulas over flat arrays (rapid)",
+            "Transpose/Concat/Slice/Gather/Expand over ranks 1..4 and all element types; every output element is compared with the source element the ONNX formula designates; valid requests may be refused, never answered with other data or another shape.",
+            "Reference index formulas are the harness's own; malformed Transpose/Concat/Gather requests lie outside the quantifier (only no-panic asserted).",
+            "DESIGN.md 3 C08"),
+    "C09": ("property-based testing against explicit-loop reductions and a stable softmax reference (rapid)",
+            "ArgMax/ReduceMax/ReduceMin over every axis subset, spelling and keepdims; Softmax/LogSoftmax over every axis with inputs across the whole finite range; per-slice non-negativity, normalisation and tolerance checks.",
+            "Softmax tolerances as stated in DESIGN.md 1.6; NaN ordering not asserted.",
+            "DESIGN.md 3 C09"),
+    "C10": ("property-based testing against Go's math library evaluated in float64 (rapid)",
+            "17 unary operators over rank 0..4, all gated dtypes and the full float range including domain boundaries and exp-overflow arguments; 4 ulp tolerance, IEEE special-value propagation, shape and dtype preserved.",
+            "Trusted base: Go standard library math functions; float32 Sigmoid tolerance (8+4|x|) ulp.",
+            "DESIGN.md 3 C10"),
+    "C11": ("property-based testing against exact expected tensors; Cast reference through math/big (rapid)",
+            "Every Constant attribute form, ConstantOfShape over all value types and shapes, Cast over all 10x10 numeric type pairs with in-range values; results compared exactly; unsupported forms must error.",
+            "Cast reference uses big.Float truncation / nearest-even, not Go's generic conversion.",
+            "DESIGN.md 3 C11"),
+    "C12": ("round-trip property-based testing with the harness's own encoder plus native coverage-guided fuzzing (thorough)",
+            "11 element types x typed/raw encodings x rank 0..4 x arbitrary bit patterns must decode bit-exactly; malformed payloads and unrepresentable data_type codes must give an error; a fraction goes through NewModelFromBytes + Run.",
+            "The encoder is written from the ONNX TensorProto documentation and shares no code with the decoder.",
+            "DESIGN.md 3 C12"),
+    "C13": ("property-based testing of an acceptance predicate over generated signatures and supplied input sets (rapid)",
+            "Signatures with fixed/symbolic/unspecified dims and initializer-shadowed inputs; supplied sets mutated in rank, fixed and dynamic sizes, names; Run must accept exactly the sets the statement's predicate accepts, return nil outputs on error and leave supplied tensors untouched; introspection equals the declaration.",
+            "Predicate transcribed from the statement; rank-0 declared inputs are outside the quantifier.",
+            "DESIGN.md 3 C13"),
     "C14": ("bounded-exhaustive enumeration of shape pairs + rapid generated pairs against a reference broadcast model",
             "Every ordered pair of shapes of rank 0..4 with extents 1..4 (quick) / 1..5 (thorough) is executed for both helpers and compared element by element with the ONNX rule; larger shapes and all 14 element types are explored with rapid. Exhaustive inside the bound the property names, exploration outside it.",
             "Trusts the harness's 20-line reference (right-aligned equal-or-1 rule, pinned-to-0 indexing) and gorgonia's At() for reading results.",
             "DESIGN.md 3 C14"),
+    "C15": ("exhaustive enumeration of the gate space + rapid stateful interleaving of registry lookups against isolated runs",
+            "Every operator x input count 0..max+2 x every element type at every position x nil at optional positions is passed through ValidateInputs (finite, enumerated completely); interleaved lookups/Init/Apply of 2..4 instances of one name must behave as in isolation; unknown names must give ErrUnsupportedOperator.",
+            "Error kinds observed with errors.As(*ops.InputError); instances are compared behaviourally (zero-size operator structs share addresses).",
+            "DESIGN.md 3 C15"),
+    "C16": ("metamorphic property-based testing (batch vs rows, permutation, sub-selection) over sample and generated per-sample models (rapid)",
+            "For the sample models and generated models with a tracked batch axis, Run on any row subset must equal the batch result restricted to those rows up to rounding; includes N=1 vs N>1 and a vacuity guard (Softmax over the batch axis must be flagged).",
+            "Generated models are restricted to continuous operators so the rounding tolerance cannot be upset by a flipped tie.",
+            "DESIGN.md 3 C16"),
+    "C17": ("generated concurrent workloads under the Go race detector with a sequential differential (rapid + -race)",
+            "2..16 goroutines run sequences of inputs on one shared Model (sample and generated weight-reading models, optional concurrent loaders) in a -race binary; any race report or any output differing bit-wise from the sequential baseline is a violation. No schedule enumeration.",
+            "The race detector reports only races on accesses that are executed; the harness does not own the scheduler.",
+            "DESIGN.md 3 C17"),
+    "C18": ("exhaustive truncation + structured and byte-level mutation (rapid) + native coverage-guided fuzzing (thorough)",
+            "Every prefix of the three small sample models, thousands of structurally perturbed and byte-mutated models, and a native fuzz campaign must never panic and never return (nil,nil); opset != 13 must give the unsupported-opset error; an unknown operator type must make Run fail with the unsupported-operator error.",
+            "A wrong-opset model that is unloadable for another reason too may report that other error (decided by re-loading with the opset forced to 13).",
+            "DESIGN.md 3 C18"),
 }
 
 NOT_YET = {}
